@@ -57,8 +57,8 @@ ASSUMPTIONS = [
 # ---------------------------------------------------------------------------
 # alphabets
 
-A_PREPEND = ['-Ia', '-Ib', '-I/usr/include', '-La', '-Lb']
-A_APPEND = ['-DA', '-DA=1', '-DB', '-UA', '-isystemS', '-isystem/usr/include', '-isystem=/usr/include']
+A_PREPEND = ['-Ia', '-Ib', '-I/usr/include', '-La', '-Lb', '-Ivendor/sq.a', '-Ldir/libx.so']   # (the last two LOOK like library files)
+A_APPEND = ['-DA', '-DA=1', '-DB', '-UA', '-isystemS', '-isystem/usr/include', '-isystem=/usr/include', '-DEXT=.so', '-DP=plug/libp.so.3', '-isystemsdk/core.a']
 A_ONCE = ['-lfoo', '-lbar', '-lm', '-lc', '/abs/libz.so', '/abs/libq.a', 'libq.a', '/abs/libv.so.1.2', '-pthread', '-Wl,-rpath,x']
 A_PLAIN = ['-O2', '-Wall', '-g', 'main.c', '/usr/include', '/abs/dir']
 A_STANDALONE = ['-D', '-U', '-isystem', '-l']
